@@ -322,4 +322,134 @@ example :
   refine ⟨by decide, ?_⟩
   simp [KeysInc]
 
+/-! ### the root table along a run, and runs in two parts (used by C04 for reorgs of the updatable tree) -/
+
+def rowsOf (H : HashAlg α) (n : Nat) (f : Nat → α) : List (Ups α) → List (RootRow α)
+  | [] => []
+  | u :: rest =>
+    { hash := tn H (updateFn f u.pos u.val) n 0, index := u.pos, blockNum := u.bn, blockPos := u.bp } ::
+      rowsOf H n (updateFn f u.pos u.val) rest
+
+def finalF (f : Nat → α) (us : List (Ups α)) : Nat → α := us.foldl (fun g u => updateFn g u.pos u.val) f
+def finalW (W : Nat → Prop) (us : List (Ups α)) : Nat → Prop := us.foldl (fun V u => fun p => V p ∨ p = u.pos) W
+def finalK (k : Nat × Nat) (us : List (Ups α)) : Nat × Nat := us.foldl (fun _ u => (u.bn, u.bp)) k
+
+/-- one successful upsert carries the invariant to the next version -/
+theorem upsert_inv (H : HashAlg α) (hinj : H.Inj) (n : Nat) (db : TreeDb α) (f : Nat → α) (W : Nat → Prop)
+    (vs : List ((Nat → α) × (Nat → Prop))) (k : Nat × Nat) (inv : UInv H n db f W vs k) (u : Ups α)
+    (hk : u.bn > k.1 ∨ (u.bn = k.1 ∧ u.bp > k.2)) (hi : u.pos < 2^n) (r : α) (db1 : TreeDb α)
+    (hup : upsertLeaf H n db u.bn u.bp u.pos u.val = .ok (r, db1)) :
+    UInv H n db1 (updateFn f u.pos u.val) (fun p => W p ∨ p = u.pos) (vs ++ [(f, W)]) (u.bn, u.bp) ∧
+    r = tn H (updateFn f u.pos u.val) n 0 ∧
+    db1.roots = db.roots ++ [{ hash := r, index := u.pos, blockNum := u.bn, blockPos := u.bp }] ∧
+    ∃ ns, db1.rht = storeNodes db.rht ns := by
+  obtain ⟨s1, s2, s3, s4, _⟩ := C08_updatable_step H hinj n db f W inv.cons inv.cur inv.zo inv.last u.bn u.bp u.pos u.val hi r db1 hup
+  obtain ⟨hroots, ns, hrht⟩ := upsertLeaf_shape H n db u.bn u.bp u.pos u.val r db1 hup
+  have hlast : lastRootHash H n db1 = tn H (updateFn f u.pos u.val) n 0 := by
+    unfold lastRootHash
+    have : getLastRoot db1 = some { hash := r, index := u.pos, blockNum := u.bn, blockPos := u.bp } := by
+      apply lastRoot_append db1 db.roots _ hroots
+      intro x hx
+      unfold RootRow.after
+      simp only [Bool.or_eq_true, decide_eq_true_eq, Bool.and_eq_true, beq_iff_eq]
+      rcases inv.keys x hx with h1 | h1
+      · unfold keyAfter at h1
+        rcases hk with h2 | h2 <;> rcases h1 with h3 | h3 <;> omega
+      · rcases hk with h2 | h2 <;> omega
+    rw [this, s1]
+  have hzo' : ZeroOutside H (updateFn f u.pos u.val) (fun p => W p ∨ p = u.pos) := by
+    intro j hj
+    simp only [updateFn]
+    rw [if_neg (fun e => hj (Or.inr e))]
+    exact inv.zo j (fun hw => hj (Or.inl hw))
+  refine ⟨⟨s2, hlast, hzo', s4, ?_, ?_⟩, s1, hroots, ns, hrht⟩
+  · intro v hv
+    rcases List.mem_append.mp hv with h1 | h1
+    · obtain ⟨c1, c2⟩ := inv.old v h1
+      exact ⟨by rw [hrht]; exact closed_mono H n _ _ _ _ c1, c2⟩
+    · simp at h1; subst h1; exact ⟨s3, inv.zo⟩
+  · intro x hx
+    rw [hroots] at hx
+    rcases List.mem_append.mp hx with h1 | h1
+    · left
+      unfold keyAfter
+      rcases inv.keys x h1 with h2 | h2
+      · unfold keyAfter at h2
+        simp only
+        rcases hk with h3 | h3 <;> rcases h2 with h4 | h4 <;> omega
+      · simp only
+        rcases hk with h3 | h3 <;> omega
+    · simp at h1; subst h1; exact Or.inr ⟨rfl, rfl⟩
+
+/-- a whole run: the final state satisfies the invariant for the final version, and the root table grew by exactly
+    one row per upsert -/
+theorem runUps_full (H : HashAlg α) (hinj : H.Inj) (n : Nat) : ∀ (us : List (Ups α)) (db : TreeDb α) (f : Nat → α)
+    (W : Nat → Prop) (vs : List ((Nat → α) × (Nat → Prop))) (k : Nat × Nat),
+    UInv H n db f W vs k → KeysInc k us → (∀ u ∈ us, u.pos < 2^n) →
+    ∀ db' roots, runUps H n db us = some (db', roots) →
+      (∃ vs', UInv H n db' (finalF f us) (finalW W us) vs' (finalK k us) ∧ ∀ v ∈ vs, v ∈ vs') ∧
+      db'.roots = db.roots ++ rowsOf H n f us ∧
+      ∃ ns, db'.rht = storeNodes db.rht ns := by
+  intro us
+  induction us with
+  | nil =>
+    intro db f W vs k inv _ _ db' roots h
+    simp only [runUps, Option.some.injEq, Prod.mk.injEq] at h
+    rw [← h.1]
+    exact ⟨⟨vs, inv, fun v hv => hv⟩, by simp [rowsOf], [], rfl⟩
+  | cons u rest ih =>
+    intro db f W vs k inv hk hpos db' roots h
+    simp only [runUps] at h
+    cases hup : upsertLeaf H n db u.bn u.bp u.pos u.val with
+    | error e => rw [hup] at h; simp at h
+    | ok res =>
+      obtain ⟨r, db1⟩ := res
+      rw [hup] at h
+      simp only [Option.map_eq_some_iff] at h
+      obtain ⟨⟨db2, roots2⟩, hrun, heq⟩ := h
+      simp only [Prod.mk.injEq] at heq
+      obtain ⟨rfl, rfl⟩ := heq
+      obtain ⟨inv1, s1, hroots, ns1, hrht1⟩ := upsert_inv H hinj n db f W vs k inv u hk.1 (hpos u (by simp)) r db1 hup
+      obtain ⟨⟨vs', i2, hsub⟩, hr2, ns2, hrht2⟩ := ih db1 _ _ _ _ inv1 hk.2 (fun x hx => hpos x (List.mem_cons_of_mem _ hx)) db2 roots2 hrun
+      refine ⟨⟨vs', i2, fun v hv => hsub v (List.mem_append_left _ hv)⟩, ?_, ?_⟩
+      · rw [hr2, hroots, s1]; simp [rowsOf]
+      · refine ⟨ns1 ++ ns2, ?_⟩
+        rw [hrht2, hrht1]
+        unfold storeNodes
+        rw [List.foldl_append]
+
+theorem runUps_append (H : HashAlg α) (n : Nat) : ∀ (us1 us2 : List (Ups α)) (db : TreeDb α) (db' : TreeDb α) (roots : List α),
+    runUps H n db (us1 ++ us2) = some (db', roots) →
+    ∃ db1 r1 r2, runUps H n db us1 = some (db1, r1) ∧ runUps H n db1 us2 = some (db', r2) ∧ roots = r1 ++ r2 := by
+  intro us1
+  induction us1 with
+  | nil => intro us2 db db' roots h; exact ⟨db, [], roots, rfl, h, rfl⟩
+  | cons u rest ih =>
+    intro us2 db db' roots h
+    simp only [List.cons_append, runUps] at h ⊢
+    cases hup : upsertLeaf H n db u.bn u.bp u.pos u.val with
+    | error e => rw [hup] at h; simp at h
+    | ok res =>
+      obtain ⟨r, dbx⟩ := res
+      rw [hup] at h
+      simp only [Option.map_eq_some_iff] at h
+      obtain ⟨⟨db2, roots2⟩, hrun, heq⟩ := h
+      simp only [Prod.mk.injEq] at heq
+      obtain ⟨rfl, rfl⟩ := heq
+      obtain ⟨db1, r1, r2, a, b, c⟩ := ih us2 dbx db2 roots2 hrun
+      refine ⟨db1, r :: r1, r2, ?_, b, by rw [c]; rfl⟩
+      simp only [hup, a, Option.map_some]
+
+theorem rowsOf_bn (H : HashAlg α) (n : Nat) : ∀ (us : List (Ups α)) (f : Nat → α) (x : RootRow α),
+    x ∈ rowsOf H n f us → ∃ u ∈ us, x.blockNum = u.bn := by
+  intro us
+  induction us with
+  | nil => intro f x h; simp [rowsOf] at h
+  | cons u rest ih =>
+    intro f x h
+    simp only [rowsOf, List.mem_cons] at h
+    rcases h with h | h
+    · exact ⟨u, by simp, by rw [h]⟩
+    · obtain ⟨y, hy, e⟩ := ih _ x h; exact ⟨y, List.mem_cons_of_mem _ hy, e⟩
+
 end Aggkit
